@@ -781,4 +781,3 @@ func AtomicCell(c *core.Ctx, rule string) {
 	}
 	c.Floor(rule, "accesses of the atomic cell", n, 4)
 }
-
